@@ -10,7 +10,7 @@ META = dict(
                'definitions.',
     level_note='Trusted: translator, shims, CBMC; the winding-number theorem (non-zero exactly inside a simple polygon) and that the '
                'floating-point orientation test has the sign of the exact one are mathematics outside the proof; Point<2> operators are separate units.',
-    scope='Utilities::polygon_contains_point (alias wrapper), Point<2> operator-/dot/norm_square; extent guard of ContinentalPlate::properties (OceanicPlate/MantleLayer: same contract, run under C02)',
+    scope='Utilities::polygon_contains_point (alias wrapper), Utilities::interpolate_angle_across_zero (plume rotation angle), Point<2> operator-/dot/norm_square; extent guard of ContinentalPlate::properties (OceanicPlate/MantleLayer: same contract, run under C02)',
     not_covered=['the winding-number kernel polygon_contains_point_implementation itself (contract and ghost definition are written - unit polygon_impl - but the proof does not finish in the time budget; it is not counted)', 'plume cross-section interpolation and ellipse membership (Plume::properties, fraction_from_ellipse_center)', 'sign-exactness of the floating-point orientation predicate'],
     enforced_elsewhere={'Point2_op_sub': 'C04/point2_sub', 'Point2_dot': 'C04/point2_dot', 'Point2_norm_square': 'C04/point2_norm_square',
                         'Utilities_polygon_contains_point_implementation': 'C04/polygon_impl'},
@@ -57,6 +57,9 @@ UNITS_ALL = [
                       '__CPROVER_loop_invariant(i <= pointNo && pointNo == point_list->n && j == (i == 0 ? pointNo - 1 : i - 1))\n'
                       '__CPROVER_loop_invariant(g_on == 0 && wn == g_up - g_down && g_up <= i && g_down <= i)\n'
                       '__CPROVER_decreases(pointNo - i)')}),
+    dict(name='angle_across_zero', enforce='Utilities_interpolate_angle_across_zero', contracts='c04_polygon.c', harness='h_angle_across_zero',
+         targets=[dict(tu=UT, qual='WorldBuilder::Utilities::interpolate_angle_across_zero')],
+         outline_fp='all', defines=dict(DEF), expect_fail=['REACHABILITY-GUARD'], spurious_if_oracle_holds=True),
     dict(name='polygon_wrapper', enforce='Utilities_polygon_contains_point', contracts='c04_polygon.c', harness='h_polygon_wrapper',
          targets=[dict(tu=UT, qual='WorldBuilder::Utilities::polygon_contains_point')],
          aliases=ALIASES, stub=[FN], nothrow=[FN], replace=[FN], outline_fp='all', defines=dict(DEF), expect_fail=['REACHABILITY-GUARD']),
@@ -68,3 +71,71 @@ _spec = _ilu.spec_from_file_location('c02', os.path.join(os.path.dirname(os.path
 _c02 = _ilu.module_from_spec(_spec)
 _spec.loader.exec_module(_c02)
 UNITS = [u for u in UNITS_ALL if not u.get('experimental')] + [u for u in _c02.UNITS if u['name'] == 'continental_plate_properties']
+
+
+# ----------------------------------------------------------------------------- native replay oracle
+def cyc(a1, a2, f):
+    if abs(a2 - a1) > math.pi:
+        if a2 > a1:
+            a1 += 2 * math.pi
+        else:
+            a2 += 2 * math.pi
+    return (1 - f) * a1 + f * a2
+
+
+def native_oracle(witness, work, search_seed=None):
+    """plume membership between cross sections = ellipse with linearly interpolated centre / semi-major axis / eccentricity and
+    cyclically interpolated rotation angle (the short way round), evaluated independently; area feature = closed polygon x closed depth range"""
+    import oracle
+    rnd = random.Random(search_seed or 1)
+    for trial in range(6):
+        angs = rnd.choice([[10, 350], [350, 20], [100, 300], [300, 100], [45, 200], [200, 30]])
+        ecc = rnd.choice([0.6, 0.8])
+        a = 30e3
+        dep = [20e3, 100e3]
+        text = json.dumps({"version": "1.1", "coordinate system": {"model": "cartesian"}, "features": [
+            {"model": "plume", "name": "P", "min depth": 5e3, "max depth": 120e3, "coordinates": [[50e3, 50e3], [50e3, 50e3]],
+             "cross section depths": dep, "semi-major axis": [a, a], "eccentricity": [ecc, ecc], "rotation angles": angs,
+             "composition models": [{"model": "uniform", "compositions": [0]}]}]})
+        q = oracle.Q(text, work)
+        try:
+            if q.construct_error:
+                continue
+            for _ in range(120):
+                d = rnd.uniform(dep[0] + 1e3, dep[1] - 1e3)
+                f = (d - dep[0]) / (dep[1] - dep[0])
+                th = cyc(math.pi / 2 - math.radians(angs[0]), math.pi / 2 - math.radians(angs[1]), f)
+                x, y = 50e3 + rnd.uniform(-35e3, 35e3), 50e3 + rnd.uniform(-35e3, 35e3)
+                dx, dy = x - 50e3, y - 50e3
+                xr, yr = dx * math.cos(th) + dy * math.sin(th), -dx * math.sin(th) + dy * math.cos(th)
+                b = a * math.sqrt(1 - ecc * ecc)
+                val = (xr / a) ** 2 + (yr / b) ** 2
+                if abs(val - 1.0) < 0.05:
+                    continue
+                st, v = q.ask('c3 %r %r %r %r 0' % (x, y, 1000e3 - d, d))
+                if st != 'OK':
+                    continue
+                inside = float.fromhex(v[0]) > 0.5
+                if inside != (val < 1.0):
+                    return dict(status='violated', detail='plume with rotation angles %s deg, eccentricity %r: at depth %r the point (%r,%r) is %s the cyclically interpolated ellipse (axis angle %.1f deg from x, normalised radius^2 %.3f) but the library reports it %s'
+                                                          % (angs, ecc, d, x, y, 'inside' if val < 1 else 'outside', math.degrees(th) % 360, val, 'inside' if inside else 'outside'))
+        finally:
+            q.close()
+    # area feature: closed polygon and closed depth interval
+    text = json.dumps({"version": "1.1", "coordinate system": {"model": "cartesian"}, "features": [
+        {"model": "continental plate", "name": "A", "min depth": 10e3, "max depth": 50e3, "coordinates": [[0, 0], [100e3, 0], [100e3, 100e3], [50e3, 150e3], [0, 100e3]],
+         "composition models": [{"model": "uniform", "compositions": [0]}]}]})
+    q = oracle.Q(text, work)
+    try:
+        for (x, y, d, exp) in [(50e3, 50e3, 10e3, True), (50e3, 50e3, 50e3, True), (50e3, 50e3, 9.99e3, False), (50e3, 50e3, 50.01e3, False), (0, 50e3, 20e3, True),
+                               (100e3, 100e3, 20e3, True), (50e3, 150e3, 20e3, True), (75e3, 125e3, 20e3, True), (76e3, 125e3, 20e3, False), (-1.0, 50e3, 20e3, False), (50e3, 0, 20e3, True)]:
+            st, v = q.ask('c3 %r %r %r %r 0' % (x, y, 1000e3 - d, d))
+            if st == 'OK' and (float.fromhex(v[0]) > 0.5) != exp:
+                return dict(status='violated', detail='continental plate polygon [[0,0],[100e3,0],[100e3,100e3],[50e3,150e3],[0,100e3]], depth 10-50 km: point (%r,%r) depth %r should be %s' % (x, y, d, 'inside' if exp else 'outside'))
+    finally:
+        q.close()
+    return dict(status='holds', detail='6 plumes x 120 points agree with the cyclically interpolated ellipse; polygon/depth boundary points of an area feature are members')
+
+
+def witness_from_trace(unit, failure, seed):
+    return {}
